@@ -533,6 +533,14 @@ impl<'c> FW<'c> {
     #[allow(clippy::too_many_arguments)]
     fn macro_outcome(&mut self, props: &[&str], what: &dyn std::fmt::Display, slot: usize, push: bool, exp: &Exp, r: Result<Option<AnyArr>, String>, exit: Exit, name: &'static str) -> Res {
         let fired = !matches!(exp, Exp::NewObj { .. });
+        // `continue` in the older macros re-runs the same index: the exit fires although the
+        // outcome is the ordinary array
+        if let (Exit::Continue(k), Exp::NewObj { ids, .. }) = (exit, exp) {
+            if name.ends_with('!') && k >= 1 && (k as usize) <= ids.len() {
+                self.ctx.cov.fault(exit.name());
+                self.ctx.cov.probe("old-macro-continue-reran-index");
+            }
+        }
         if fired {
             self.ctx.cov.fault(exit.name());
             match (name, exit) {
